@@ -1263,7 +1263,11 @@ func TestC16Silent(t *testing.T) {
 // holds entries (the cache's event buffer has 65536, and nothing drains it while the
 // monitors are restarted); the connection is cut, rows are deleted and inserted meanwhile,
 // and the cache must converge as for a small database.
-func TestC16Large(t *testing.T) {
+func TestC16Large(t *testing.T) { largeResync(t, "C16") }
+
+// largeResync is shared with C18 (TestC18Large): there the point is that every read of the
+// client's state returns while and after the large cache is rebuilt.
+func largeResync(t *testing.T, prop string) {
 	w := c16World(t)
 	srv, err := kit.StartServer(w)
 	if err != nil {
@@ -1283,7 +1287,7 @@ func TestC16Large(t *testing.T) {
 	const big, small = 66000, 1200
 	kase := map[string]interface{}{"rowsT2": big, "rowsT0": small}
 	fail := func(class, format string, args ...interface{}) {
-		kit.Fail(t, "C16", class, kase, format, args...)
+		kit.Fail(t, prop, class, kase, format, args...)
 	}
 	send := func(ops []json.RawMessage) {
 		if reply, err := writer.Transact("DB", ops); err != nil || strings.Contains(string(reply), `"error"`) {
@@ -1350,7 +1354,8 @@ func TestC16Large(t *testing.T) {
 			}
 		})
 		if !ok {
-			fail("resync.hang", "reading the client's state 120 s after the cut does not return\n%s", firstBlocked(stacks))
+			fmt.Printf("VERIF-HANG reading the client's state after a cut with %d rows cached\n", big+small)
+			fail(map[bool]string{true: "liveness.hang", false: "resync.hang"}[prop == "C18"], "reading the client's state 120 s after the cut does not return\n%s", firstBlocked(stacks))
 		}
 		if len(diffs) > 0 {
 			if len(diffs) > 8 {
@@ -1359,5 +1364,5 @@ func TestC16Large(t *testing.T) {
 			fail("resync.cache-differs", "round %d: 60 s after the cut the client has not converged to the database (%d + %d rows monitored):\n%s", round, big, small, strings.Join(diffs, "\n"))
 		}
 	}
-	kit.Record("C16", "large|66000+1200", true, func() interface{} { return kase }, "large-database")
+	kit.Record(prop, "large|66000+1200", true, func() interface{} { return kase }, "large-database")
 }
